@@ -120,9 +120,18 @@ int RePair::extractStringAndCompareRP(uint id, uchar *str, uint strLen) {
       if (cmp != 0)
         break;
     } else {
-      if ((uchar)next != str[pos])
-        return (int)((uchar)next - str[pos]);
+      if ((uchar)next != str[pos]) {
+        cmp = (int)((uchar)next - str[pos]);
+        break;
+      }
       pos++;
+    }
+
+    // The terminator of the stored string has matched an inner char of the
+    // pattern (which uses maxchar): the stored string is shorter
+    if ((pos <= strLen) && (str[pos - 1] == maxchar)) {
+      cmp = -1;
+      break;
     }
 
     l++;
